@@ -28,7 +28,7 @@ CHECKS = {
         text='Decision tables of __setter/__getter/__deleter over value type x name {NULL, "", x} x exists x replace x value pointer x JSON '
              'parse outcome x jansson result: returned code, value->error and the exact sequence of mutating jansson calls per cell against '
              'the operation table (EXIST/INVALID => no mutation; replace => delete then set; nameless JSON => update/update_missing; no '
-             'JSON_DECODE_ANY); dispatch of the public wrappers to the right container. Flags of the JSON setter\'s parser.',
+             'JSON_DECODE_ANY); dispatch of the public wrappers to the right container. Flags of the JSON setter\'s parser. The token handed to the generate callback shares no mutable JSON node with the builder (a set on the token cannot write through into the builder\'s map).',
         design_ref='DESIGN.md section 3 C15, appendix A.6',
         note='NOT decided: jansson\'s map semantics and therefore sequences of operations (histories) - only each operation\'s decision '
              'structure.',
